@@ -66,6 +66,10 @@ def rhs(bkind, M, V, n, tok, seed):
     rnd = lambda *s: g.standard_normal(s) + (1j * g.standard_normal(s) if c else 0)  # noqa: E731
     if bkind == "rand1":
         return rnd(n), None
+    if bkind == "lowp":  # a right-hand side in a NARROWER dtype than the operator: the solve runs in the promoted dtype
+        return rnd(n, 2).astype(np.complex64 if c else np.float32), None
+    if bkind == "intrhs":  # an integer right-hand side (norm not an integer)
+        return P.ints(g, (n, ), -3, 3, nonzero=True).astype(np.int64), None
     if bkind == "rand3":
         return rnd(n, 3) * np.array([1e-3, 1.0, 1e3])[None, :], None
     if bkind == "e1":
@@ -107,7 +111,7 @@ def run_case(case, seed):
     if x0kind == "rand":
         x0 = g.standard_normal(b.shape) + (1j * g.standard_normal(b.shape) if np.iscomplexobj(M) else 0)
         x0 = x0.astype(M.dtype)
-    B = b if b.ndim == 2 else b[:, None]
+    B = (b if b.ndim == 2 else b[:, None]).astype(np.result_type(b.dtype, M.dtype))
     X0 = np.zeros_like(B) if x0 is None else (x0 if x0.ndim == 2 else x0[:, None])
     R0 = B - M @ X0
     exact = fam == "int" and not np.iscomplexobj(M) and n <= 6
@@ -184,7 +188,7 @@ def cases(tier, seed):
     for tok in ("f8", "c16"):
         for n in small:
             ms = list(range(1, n + 4))
-            for bk in ("rand1", "rand3", "e1", "zerocol", "mix2"):
+            for bk in ("rand1", "rand3", "e1", "zerocol", "mix2", "lowp", "intrhs"):
                 if bk == "mix2" and n < 2:
                     continue
                 for x0k in ("none", "rand"):
@@ -195,11 +199,11 @@ def cases(tier, seed):
     for fam, tok in fams:
         for n in ([3, 5] + big):
             ms = list(range(1, n + 4)) if n <= 8 else sorted({1, 2, 5, 10, 25, n, n + 5})
-            for bk in ("rand1", "rand3", "eig1", "deg2", "deg3", "zerocol", "mix2"):
+            for bk in ("rand1", "rand3", "eig1", "deg2", "deg3", "zerocol", "mix2", "lowp", "intrhs"):
                 for x0k in ("none", "rand"):
                     for tol in tols:
                         for entry in (("gmres", "inv") if n <= 25 else ("gmres", )):
-                            if tier == "quick" and n > 8 and (tol == 1e-6 or entry == "inv") and bk not in ("rand1", "deg2", "mix2"):
+                            if tier == "quick" and n > 8 and (tol == 1e-6 or entry == "inv") and bk not in ("rand1", "deg2", "mix2", "lowp"):
                                 continue
                             out.append([fam, n, tok, bk, x0k, tol, entry, ms])
     _DESC.update({"groups": len(out), "runs": sum(len(c[-1]) for c in out), "sizes": small + big})
@@ -214,7 +218,7 @@ def describe(tier, seed):
     return {
         "bound": "operators: integer nonsingular n=1..6 (real: exact rational optimum; complex), complex normal, real / complex "
                  "non-normal with prescribed eigenvectors (also at scale 2^-45 and 2^40), n in " + str(_DESC.get("sizes")) + "; right-hand sides: 1 column, 3 columns "
-                 "(norms 1e-3, 1, 1e3), e1, eigenvector, minimal-polynomial degree 2 and 3, a zero column among non-zero ones, a heterogeneous batch (eigenvector + generic); x0 in {none, random}; every m in 1..n+3 "
+                 "(norms 1e-3, 1, 1e3), e1, eigenvector, minimal-polynomial degree 2 and 3, a zero column among non-zero ones, a heterogeneous batch (eigenvector + generic), float32 / complex64 columns on a double-precision operator, an integer vector; x0 in {none, random}; every m in 1..n+3 "
                  "(n<=8) / {1,2,5,10,25,n,n+5}; tol in {1e-12, 1e-6}; entry points gmres() and inv(A, GMRES()) @ b",
         "alphabet": _DESC,
         "oracle": "per column: residual <= (1+1e-6) * Krylov optimum + slack; <= initial residual; non-increasing in m; ~0 at m >= n or "
